@@ -42,7 +42,8 @@ func (c *c11Case) dir() []dirFile {
 	for i, v := range c.Versions {
 		body := fmt.Sprintf("S%s_1;\nS%s_2;\n", v, v)
 		if c.Ck[i] {
-			body = "-- atlas:checkpoint\n\n" + body
+			// the directive is the first line, or stands behind another directive / an ordinary comment line of the header
+			body = []string{"", "-- atlas:txmode none\n", "-- written by hand\n"}[i%3] + "-- atlas:checkpoint\n\n" + body
 		}
 		d = append(d, dirFile{fmt.Sprintf("%s_f.sql", v), body})
 	}
